@@ -844,4 +844,11 @@ def fn_item_body(prog, fnterm):
         hits = [k for k in prog.bodies if k.endswith(suffix)]
         if len(hits) == 1:
             return prog.bodies[hits[0]]
+        if meth == "into" and trait.startswith("std::convert::Into<") and trait.endswith(">"):
+            # `<A as Into<B>>::into` is the blanket impl over a local `impl From<A> for B`
+            dst = trait[len("std::convert::Into<"):-1]
+            for suffix in ("<impl std::convert::From<%s> for %s>::from" % (self_ty, dst), "<%s as std::convert::From<%s>>::from" % (dst, self_ty)):
+                hits = [k for k in prog.bodies if k.endswith(suffix)]
+                if len(hits) == 1:
+                    return prog.bodies[hits[0]]
     return None
